@@ -1004,7 +1004,7 @@ class BaseSoftPedalLine(BasePedalLine):
 snote_classes = (BaseSnoteLine, BaseSnoteNoteLine, BaseDeletionLine)
 
 # classes that contain performed notes.
-note_classes = (BaseNoteLine, BaseSnoteNoteLine, BaseInsertionLine)
+note_classes = (BaseNoteLine, BaseSnoteNoteLine, BaseInsertionLine, BaseOrnamentLine)
 
 
 class MatchFile(object):
